@@ -242,6 +242,12 @@ type name = n list
 
 val name_eqb : name -> name -> bool
 
+type token =
+| Lambda
+| Lparen
+| Rparen
+| Number of nat
+
 type atok =
 | TLam of name
 | TLp
@@ -266,13 +272,19 @@ val lex_cla : lstate -> nat -> cchar list -> lex_result
 
 val index_of : name -> name list -> nat option
 
+val res_group :
+  nat -> name list -> name list -> atok list -> (token list * atok
+  list) * name list
+
+val resolve : atok list -> token list
+
 val apps : term list -> term option
 
-val rgroup :
-  nat -> name list -> name list -> atok list -> ((term * atok list) * name
-  list) option
+val rgroup : nat -> token list -> (term * token list) option
 
-val rparse : atok list -> term option
+val idx_tokens : atok list -> token list
+
+val rparse : token list -> term option
 
 type ref_result =
 | RefOk of term
@@ -464,12 +476,6 @@ type parse_error =
 | InvalidCharacter of nat * n
 | InvalidExpression
 | EmptyExpression
-
-type token =
-| Lambda
-| Lparen
-| Rparen
-| Number of nat
 
 type ctoken =
 | CLambda of name
